@@ -23,9 +23,13 @@ Inductive fpath :=
 | FIndex                        (* index.json *)
 | FIndexTmp (c : nat)           (* index.json.tmp<random>: temporary sibling, c = operation counter *)
 | FBlob (d : N)                 (* blobs/sha256/<d> *)
-| FIngest (d : N) (c : nat).    (* ingest/<d>_<random> *)
+| FIngest (d : N) (c : nat)     (* ingest/<d>_<random> *)
+| FLayoutTmp (c : nat).         (* oci-layout.tmp<random>: temporary sibling during initialisation *)
 
-Inductive dpath := DBlobs | DAlg | DIngest.
+(* blob names are pairs (algorithm, digest) encoded as 1000 * algorithm + n:
+   algorithm 0 = sha256, 1 = sha512; blobs/<algorithm>/ is created by the first push into it *)
+Definition alg_of (d : N) : N := d / 1000.
+Inductive dpath := DBlobs | DAlg (a : N) | DIngest.
 
 Definition fpath_eqb (p q : fpath) : bool :=
   match p, q with
@@ -34,17 +38,19 @@ Definition fpath_eqb (p q : fpath) : bool :=
   | FIndexTmp a, FIndexTmp b => Nat.eqb a b
   | FBlob a, FBlob b => N.eqb a b
   | FIngest a x, FIngest b y => N.eqb a b && Nat.eqb x y
+  | FLayoutTmp a, FLayoutTmp b => Nat.eqb a b
   | _, _ => false
   end.
 
 Definition dpath_eqb (p q : dpath) : bool :=
   match p, q with
-  | DBlobs, DBlobs | DAlg, DAlg | DIngest, DIngest => true
+  | DBlobs, DBlobs | DIngest, DIngest => true
+  | DAlg a, DAlg b => N.eqb a b
   | _, _ => false
   end.
 
 Definition is_temp (p : fpath) : bool :=
-  match p with FIndexTmp _ | FIngest _ _ => true | _ => false end.
+  match p with FIndexTmp _ | FIngest _ _ | FLayoutTmp _ => true | _ => false end.
 
 (* ---------- file contents ---------- *)
 Definition entry := (N * option N)%type.      (* index.json entry: blob name, ref-name annotation *)
@@ -118,7 +124,9 @@ Inductive op :=
 | Tag (d r : N)
 | Untag (r : N)
 | Delete (d : N)
-| SaveIndex.
+| SaveIndex
+| Forget (live : list N).   (* the in-memory half of GC: digest references of content outside
+                               [live] are dropped (tagged content always stays), then saveIndex *)
 
 Inductive res := ROk | RExists | RNotFound | RMismatch.
 
@@ -154,8 +162,9 @@ Definition index_steps (c : nat) (tags : list (N * N)) (digs : list N) : list ms
   else [Create (FIndexTmp c); Write (FIndexTmp c) (AIndex l); Close (FIndexTmp c);
         Rename (FIndexTmp c) FIndex].
 
-Definition mkdirs (fs : FS) : list mstep :=
-  (if dirs fs DAlg then [] else [Mkdir DAlg]) ++ (if dirs fs DIngest then [] else [Mkdir DIngest]).
+Definition mkdirs (fs : FS) (d : N) : list mstep :=
+  (if dirs fs (DAlg (alg_of d)) then [] else [Mkdir (DAlg (alg_of d))]) ++
+  (if dirs fs DIngest then [] else [Mkdir DIngest]).
 
 (* memory after the operation completed (the tag resolver) *)
 Definition op_mem (s : st) (o : op) : list (N * N) * list N :=
@@ -175,6 +184,8 @@ Definition op_mem (s : st) (o : op) : list (N * N) * list N :=
   | Delete d =>
       (filter (fun e => negb (snd e =? d)) (stags s), filter (fun x => negb (x =? d)) (sdigs s))
   | SaveIndex => (stags s, sdigs s)
+  | Forget live =>
+      (stags s, filter (fun x => memN x live || existsb (fun e => snd e =? x) (stags s)) (sdigs s))
   end.
 
 Definition op_steps (s : st) (o : op) : list mstep :=
@@ -185,7 +196,7 @@ Definition op_steps (s : st) (o : op) : list mstep :=
       if exists_file (sfs s) (FBlob d) then []
       else
         let t := FIngest d c in
-        mkdirs (sfs s) ++ [Create t] ++ map (fun x => Write t (AChunk x)) cont ++
+        mkdirs (sfs s) d ++ [Create t] ++ map (fun x => Write t (AChunk x)) cont ++
         (if H cont =? d
          then [Chmod t; Close t; Rename t (FBlob d)] ++ (if man then index_steps c tags' digs' else [])
          else [Close t; Unlink t])
@@ -202,6 +213,7 @@ Definition op_steps (s : st) (o : op) : list mstep :=
       let un := if exists_file (sfs s) (FBlob d) then [Unlink (FBlob d)] else [] in
       if unlink_first then un ++ ix else ix ++ un
   | SaveIndex => index_steps c tags' digs'
+  | Forget _ => index_steps c tags' digs'
   end.
 
 Definition op_res (s : st) (o : op) : res :=
@@ -213,6 +225,7 @@ Definition op_res (s : st) (o : op) : res :=
   | Untag r => match tag_get r (stags s) with Some _ => ROk | None => RNotFound end
   | Delete d => if exists_file (sfs s) (FBlob d) then ROk else RNotFound
   | SaveIndex => ROk
+  | Forget _ => ROk
   end.
 
 Definition run_op (s : st) (o : op) : st :=
@@ -220,6 +233,19 @@ Definition run_op (s : st) (o : op) : st :=
   mkSt (apply (op_steps s o) (sfs s)) tags' digs' (S (sctr s)).
 
 Definition run (h : list op) (s : st) : st := fold_left run_op h s.
+
+(* One API call that performs several primitive operations in a row under the store's
+   lock: Delete with AutoGC = plain deletes of the target, of its untagged referrers and of
+   the content left dangling, in queue order; GC = Forget, then the plain delete of every
+   blob file outside the live set, in directory order.  Which nodes a cascade or a sweep
+   visits is C09's subject; here they are an arbitrary list. *)
+Fixpoint steps_seq (s : st) (os : list op) : list mstep :=
+  match os with
+  | [] => []
+  | o :: r => op_steps s o ++ steps_seq (run_op s o) r
+  end.
+Definition crash_seq (s : st) (os : list op) (k : nat) : FS :=
+  apply (firstn k (steps_seq s os)) (sfs s).
 
 (* the operation [o] interrupted before its k-th micro-step *)
 Definition crash_fs (s : st) (o : op) (k : nat) : FS :=
@@ -235,6 +261,23 @@ Definition init_fs : FS :=
        (fun d => match d with DBlobs => true | _ => false end).
 Definition init : st := mkSt init_fs [] [] 0.
 
+(* ---------- initialisation itself: oci.New on a directory that is not (yet) a layout ---------- *)
+Definition empty_fs : FS := mkFS (fun _ => None) (fun _ => false).
+
+(* layout_inplace = true is the code before the repair: os.WriteFile on oci-layout *)
+Definition layout_steps (layout_inplace : bool) (c : nat) : list mstep :=
+  if layout_inplace
+  then [OpenTrunc FLayout; Write FLayout ALayout; Close FLayout]
+  else [Create (FLayoutTmp c); Write (FLayoutTmp c) ALayout; Close (FLayoutTmp c);
+        Rename (FLayoutTmp c) FLayout].
+
+(* New: ensureDir(blobs); oci-layout is written when it does not exist (validated when it
+   does); index.json is written (no manifests) when it does not exist (loaded when it does) *)
+Definition new_steps (layout_inplace : bool) (fs : FS) (c : nat) : list mstep :=
+  (if dirs fs DBlobs then [] else [Mkdir DBlobs]) ++
+  (if exists_file fs FLayout then [] else layout_steps layout_inplace c) ++
+  (if exists_file fs FIndex then [] else index_steps c [] []).
+
 (* ---------- what a reader of the directory sees ---------- *)
 Definition read_index (fs : FS) : option (list entry) :=
   match files fs FIndex with
@@ -247,6 +290,11 @@ Definition layout_okb (fs : FS) : bool :=
   | Some f => match fcontent f with [ALayout] => true | _ => false end
   | None => false
   end.
+
+(* New does not fail on this directory: what exists parses *)
+Definition new_okb (fs : FS) : bool :=
+  (negb (exists_file fs FLayout) || layout_okb fs) &&
+  (negb (exists_file fs FIndex) || match read_index fs with Some _ => true | None => false end).
 
 (* ---------- crash, then oci.New on the directory that was left behind ---------- *)
 (* loadIndex: every entry is tagged by its digest; an entry with a ref name is tagged by it
@@ -333,6 +381,12 @@ Definition src_inplace : bool :=
 (* Store.delete: saveIndex before storage.Delete *)
 Definition src_unlink_first : bool :=
   negb (list_eqb str_eqb calls_delete [b "s.saveIndex"; b "s.storage.Delete"]).
+(* Store.GC: rebuild the maps, save index.json, only then remove blob files *)
+(* ensureOCILayoutFile writes oci-layout through writeFileAtomic *)
+Definition src_layout_inplace : bool :=
+  negb (list_eqb str_eqb calls_ensure_layout [b "writeFileAtomic"]).
+Definition src_gc_order_ok : bool :=
+  list_eqb str_eqb calls_gc [b "s.gcIndex"; b "s.saveIndex"; b "os.Remove"].
 (* Store.Push: the blob is stored before it is tagged; Storage.Push: ingest then rename;
    ingest: create temp, copy+verify, chmod *)
 Definition src_push_order_ok : bool :=
